@@ -10,7 +10,7 @@ Two overlaid in-package harnesses (two test binaries), one verdict:
   b  master  hooks/lib/util/lifted/influx/meta/c05_test.go             TestVerifC05Master
              catalogue side: every sequence of node down/up, master re-selection and replication commands on one replica group of 3.
 """
-import json, os, re, shutil, time
+import json, os, re, shutil, tempfile, time
 
 import checklib
 
@@ -66,6 +66,18 @@ def shrink_overlay():
     return {os.path.join(src_dir, fn): out}
 
 
+def _scratch_root():
+    """Scratch on tmpfs when there is room (the raft log pre-fills every file with 1 MiB of zeros: 3x cheaper in memory)."""
+    if not (os.environ.get("VERIF_TMP") or os.environ.get("TMPDIR")):
+        try:
+            st = os.statvfs("/dev/shm")
+            if st.f_bavail * st.f_frsize > 4 << 30:
+                return tempfile.mkdtemp(prefix="verif-%s-" % CID, dir="/dev/shm")
+        except OSError:
+            pass
+    return checklib.scratch_root(CID)
+
+
 def _which_binary(replay_path):
     rc = json.load(open(replay_path)).get("replay") or {}
     return BINARIES[1] if rc.get("part") == "b" else BINARIES[0]
@@ -75,7 +87,7 @@ def run(tier, replay):
     t0 = time.time()
     ov = checklib.gen_overlay(CID, HOOKS, shrink_overlay())
     bdir = checklib.build_dir(CID)
-    scratch = checklib.scratch_root(CID)
+    scratch = _scratch_root()
     try:
         if replay:
             name, pkg, test, binname = _which_binary(replay)
@@ -102,7 +114,7 @@ def run(tier, replay):
             sub = os.path.join(scratch, name)
             os.makedirs(sub, exist_ok=True)
             dl = deadline if name == "a" else min(deadline, 600)
-            reports += checklib.run_workers(CID, binp, test, tier, WORKERS, dl, sub)
+            reports += checklib.run_workers(CID, binp, test, tier, WORKERS, dl, sub, extra_env={"GOMAXPROCS": "2"})
             wall[name] = round(time.time() - t1, 1)
             checklib.log("part %s workers done in %.1fs" % (name, wall[name]))
         return checklib.finish(CID, tier, LEVEL, RULE, reports, t0, ASSUMPTIONS,
